@@ -65,6 +65,9 @@ pub fn exec(db: &dyn IndexDatabase, range: FileRange) -> Option<Vec<InlayHint>> 
             _ => {}
         }
     }
+    // a symbol overlapping the range can own hints that lie outside of it
+    hints.retain(|hint| range.range.contains_inclusive(hint.position));
+
     Some(hints)
 }
 
